@@ -256,6 +256,27 @@ def check_lock_pair(run, repo, world, fns):
                    "it)" % ", ".join(str(n_.lineno) for n_ in rebound),
                    where(mod, F.fn))
     run.floor("functions managing transaction_lock", npair, 5)
+    # the per-gateway serialisers taken by hand (`await lock.acquire()` in
+    # place of `async with lock`): released on every exit as well - a
+    # confirmation that never arrives, or a cancelled caller, otherwise
+    # leaves the mutex taken and every later send waits for ever while
+    # holding transaction_lock
+    for F in sorted(fns.values(), key=lambda f: f.q):
+        others = sorted({ln for n in F.cfg.reachable
+                         for (k, ln) in lock_events(n)
+                         if k == "acquire" and ln != TL})
+        for ln in others:
+            mod = repo.mod(F.cls.mod)
+            for ex, what in ((F.cfg.exit, "normal"),
+                             (F.cfg.raise_exit, "exception")):
+                bad = F.W.worlds_with(ex, lambda w, ln=ln: ("held", ln)
+                                      in w)
+                run.ob("R-LOCK-PAIR", "%s#%s-released-on-%s" % (
+                    F.q, ln, what), not bad,
+                    "%s is acquired by hand and still held at the %s exit "
+                    "(%s): every later caller waits for it for ever" % (
+                        ln, what, path_str(F.W.trace(ex, bad[0])[-8:], 8)
+                        if bad else ""), where(mod, F.fn))
     # one hold of the lock per sequence: after a release nothing more of
     # the sequence is transmitted (no release / re-acquire in the middle)
     for F in sorted(fns.values(), key=lambda f: f.q):
